@@ -71,6 +71,17 @@ def store_shard(serializer: str, kind: str, seed: int, examples: int, known: lis
             appcache[k] = apps.make_app(kind, serializer_cls=serializer, min_size_to_cache=minsize, local_cache_size=lru, disable_client_data_store=disable)
         return appcache[k]
 
+    others: dict[str, Any] = {}
+
+    def other_instance(app):
+        """A second Pynenc object on the same storage (another process image of the same application)."""
+        if app.app_id not in others:
+            from pynenc import Pynenc
+
+            Pynenc._clear_instances()
+            others[app.app_id] = Pynenc(config_values=dict(app.config_values))
+        return others[app.app_id]
+
     @hypothesis.seed(seed)
     @make_settings(examples)
     @given(v=V.values_for(serializer, 8), minsize=st.sampled_from([16, 64, 1024]), delta=st.sampled_from([-1, 0, 1, 40]),
@@ -107,6 +118,17 @@ def store_shard(serializer: str, kind: str, seed: int, examples: int, known: lis
         got = cds.resolve(ref)
         if not V.same(got, original):
             rep.fail("store:resolve-after-caller-mutation", f"[{kind}] reference resolves to {got!r:.120} but was created from {original!r:.120}")
+        # the same (now mutated) object sent again: the reference must follow the content
+        mutated_copy = copy.deepcopy(val)
+        ref_m = cds.serialize(val, disable_cache=disable_arg)
+        ref_m2 = cds.serialize(mutated_copy, disable_cache=disable_arg)
+        if ref_m != ref_m2 or (is_ref and ref_m == ref):
+            rep.fail(f"store:{kind}:stale-reference-for-mutated-object", f"serialize() of an object mutated in place returned {'the old reference' if ref_m == ref else 'another reference than for equal content'}")
+        if cds.is_reference(ref_m):
+            cds._deserialized_cache.clear()
+            back_m = cds.resolve(ref_m)
+            if not V.same(back_m, mutated_copy):
+                rep.fail(f"store:{kind}:resolve-mutated-resend", f"a fresh reader resolves {back_m!r:.100} for the re-sent mutated value {mutated_copy!r:.100}")
         ref2 = cds.serialize(copy.deepcopy(original), disable_cache=disable_arg)
         rep.check(ref2 == ref, f"store:{kind}:content-addressing", "equal content gave a different reference / inline string")
         # eviction pressure, then resolve again
@@ -126,6 +148,20 @@ def store_shard(serializer: str, kind: str, seed: int, examples: int, known: lis
         got4 = cds.resolve(ref)
         if not V.same(got4, original):
             rep.fail(f"store:{kind}:resolve-fresh-reader", f"{got4!r:.120} vs {original!r:.120}")
+        if kind == "sqlite" and is_ref:
+            # another instance purges the shared store, then this instance sends the same content again:
+            # the new reference must resolve for a reader with a cold cache
+            got_warm = cds.resolve(ref)  # warms this instance's local cache again
+            other = other_instance(app)
+            other.client_data_store.purge()
+            ref5 = cds.serialize(copy.deepcopy(original), disable_cache=disable_arg)
+            other.client_data_store._deserialized_cache.clear()
+            try:
+                got5 = other.client_data_store.resolve(ref5)
+                if not V.same(got5, original):
+                    rep.fail(f"store:{kind}:resolve-after-foreign-purge", f"{got5!r:.100} vs {original!r:.100}")
+            except Exception as exc:  # noqa: BLE001
+                rep.fail(f"store:{kind}:reference-dangling-after-foreign-purge", f"serialize() after another instance purged the store returned a reference that does not resolve: {type(exc).__name__}: {exc}")
 
     run_given(rep, prop, f"store:{kind}:{serializer}", max_buckets=4)
     return part.dump()
